@@ -219,11 +219,13 @@ def run(ctx, run):
                 key = "RF-LOCK:%s:%s%s" % (gname, f.name, ("<-" + "+".join(cl)) if cl else "")
                 if bad:
                     node = bad[0]
-                    run.violation("RF-LOCK", key, "%s accesses %s without %s (%d of %d access(es), first: `%s`; entered with "
-                                  "lockset %s on the path from a documented cross-thread entry point)"
-                                  % (f.name, what, mutex, len(bad), tot, ex.pretty(f, node)[:60], sdesc), ex.loc(f, node),
-                                  witness={"function": f.name, "entry_lockset": sorted(S), "unlocked_accesses": len(bad),
-                                           "first": ex.pretty(f, node), "lines": sorted({f.exprs[b]["line"] for b in bad})[:12]})
+                    origins = locks.unlocked_origins(spec, fkey, S, mutex) if mutex not in S else [f.name]
+                    for o in origins or ["?"]:
+                        run.violation("RF-LOCK", key + "@" + o, "%s accesses %s without %s (%d of %d access(es), first: `%s`; entered "
+                                      "with lockset %s; the unlocked call chain starts in %s())"
+                                      % (f.name, what, mutex, len(bad), tot, ex.pretty(f, node)[:60], sdesc, o), ex.loc(f, node),
+                                      witness={"function": f.name, "entry_lockset": sorted(S), "unlocked_accesses": len(bad), "origin": o,
+                                               "first": ex.pretty(f, node), "lines": sorted({f.exprs[b]["line"] for b in bad})[:12]})
                 else:
                     run.holds("RF-LOCK", key + ":" + sdesc, "%d access(es) to %s in %s, all with %s held (entry lockset %s)"
                               % (tot, what, f.name, mutex, sdesc), "%s:%d" % (f.file, f.line))
